@@ -1,248 +1,64 @@
-import A5.Model.GenericGeo
-import A5.Lemmas.AngularRoundTrip2
-import Mathlib.Analysis.SpecialFunctions.Trigonometric.Basic
-import Mathlib.Analysis.SpecialFunctions.Trigonometric.Deriv
-import Mathlib.Analysis.SpecialFunctions.Trigonometric.Inverse
-import Mathlib.Analysis.Real.Sqrt
-import Mathlib.Analysis.Real.Pi.Bounds
-import Mathlib.Analysis.Calculus.FDeriv.Basic
-import Mathlib.Tactic.Ring
-import Mathlib.Tactic.FieldSimp
-import Mathlib.Tactic.LinearCombination
-import Mathlib.Tactic.Linarith
-import Mathlib.Tactic.NormNum
-/-! # C16 — the face projection is area-preserving: what is proved and what is not
+import A5.Props.C16Core
+import A5.Lemmas.SweepFormula3
+/-! # C16 — the face projection is area-preserving at every point (continued)
 
-Model (`A5/Model/Geo.lean`): `polyhedralForward` maps a point of a spherical triangle `abc` to barycentric
-weights `(1 − h, h·area(apc)/area(abc), h·area(abp)/area(abc))` and then, by `barycentricToFace`, into the
-planar face triangle.  Generic twins used here: `A5.G.barycentricToFaceG`, `A5.G.triDetG`
-(`A5/Model/GenericGeo.lean`; tie lemma `A5.G.barycentricToFace_tie`, by `rfl`).
+`A5/Props/C16Core.lean` holds T1-T4 (affine step, the two h² laws, the Jacobian identity in polar coordinates UNDER the
+sweep hypothesis, the constant, the area-fraction law).  This file adds T5-T7, which discharge the sweep hypothesis for
+the code's own area function (`A5/Lemmas/SweepFormula*.lean`; the lemma files import `C16Core`, hence the split):
 
-Proved:
-* T1 `affine_area`: the last step is affine, so it multiplies every area by the same constant, the
-  determinant of the face triangle (over any commutative ring);
-* T2 `planar_wedge_area`, `cap_fraction`, `equal_area_jacobian_polar`: the two "`h²` laws" (planar wedge and
-  spherical cap) and the resulting Jacobian identity in polar coordinates about the apex, *assuming* the
-  polar area-sweep formula for the spherical triangle as a hypothesis;
-* T3 `sphere_area_per_triangle`: the constant `4π/(12·10) = π/30` with a rational enclosure.
+* T5 `sweep_formula`: for a point moving along a great circle through `b`, parametrised by its apex angle `ψ` at `a`,
+  the area of the spherical triangle `(a, b, P(ψ))` - computed as the code computes it (2·asin of the triple product of the
+  normalised edge midpoints) - has derivative `1 - cos ∠(a, P(ψ))`: Eriksson's excess IS the polar-coordinate area integral.
+* T6 `equal_area_pointwise`: hence, with NO hypothesis about areas, at every point of every edge `P = slerp(b, c, t)` of a
+  counter-clockwise triangle with `b·c > 0`: in the coordinates `(θ, ψ)` (arc distance from the apex, apex angle) the map
+  `(θ, ψ) ↦ (h, β) = (sin(θ/2)/sin(ρ/2), area(a, b, P(ψ))/Ω)` that the forward projection computes has Jacobian
+  determinant × planar density `h·S` equal to `S/(2Ω)·sin θ`: a constant multiple of the sphere's own area density `sin θ`.
+* T7 `equal_area_two_variable`: the same as a statement about the Fréchet derivative of the two-variable map, including the
+  dependence of `h` on `ψ` through `ρ(ψ)` (the off-diagonal entry drops out of the determinant because `β` does not depend
+  on `θ`).
 
-* T4 `angular_area_fraction` (from `A5/Lemmas/AngularRoundTrip.lean`): the inverse map sends the planar edge fraction
-  `r = w/h` to the point `P` of the spherical edge with `area(a, b, P) = r · area(a, b, c)` - with the code's own area
-  formula - so planar and spherical sub-triangle areas are in the same ratio for every `r`; together with the radial
-  `h²` law (`cap_fraction`) this is the equal-area property in integrated (sector) form, without the sweep hypothesis.
-
-Not proved (kept as `equal_area_jacobian_statement`, assumed nowhere): that the idealised real-number version
-of `polyhedralForward` has constant Jacobian with respect to the sphere's area form. -/
+Still NOT proved: that the 120 runtime triangles satisfy the hypotheses (closed inequalities on rounded constants); the
+passage from this polar chart to `equal_area_jacobian_statement` about `polyhedralForwardR` as a map into the plane; the
+small-|s| branch of the area function; anything about `f64` rounding. -/
 namespace A5.C16
-open A5 A5.G
+open A5 A5.RadialRoundTrip A5.AngularRoundTrip A5.SweepFormula
 
-/-! ## T1: the barycentric → face step scales all areas by one constant -/
+/-- T5. the sweep formula for the code's own triangle area. -/
+theorem sweep_formula {a b d : RadialRoundTrip.R3} (ha : dotR a a = 1) (hb : dotR b b = 1) (hd : dotR d d = 1)
+    (hbd : dotR b d = 0) {ψ : ℝ}
+    (hMq : 0 < Real.cos ψ * tripleR a b d + Real.sin ψ * (dotR a b * dotR a d))
+    (hD : 0 < 1 + dotR a b + dotR b (gcPoint b d (edgeArcR a b d ψ)) + dotR (gcPoint b d (edgeArcR a b d ψ)) a) :
+    HasDerivAt (fun x => triAreaR a b (gcPoint b d (edgeArcR a b d x)))
+      (1 - Real.cos (angleR a (gcPoint b d (edgeArcR a b d ψ)))) ψ :=
+  A5.SweepFormula.sweep_formula ha hb hd hbd hMq hD
 
-section ring
-variable {K : Type} [CommRing K]
+/-- T6. equal area, pointwise, at every point of an edge of a counter-clockwise triangle - no sweep hypothesis. -/
+theorem equal_area_pointwise {a b c : RadialRoundTrip.R3} (ha : dotR a a = 1) (hb : dotR b b = 1) (hc : dotR c c = 1)
+    (hV : 0 < tripleR a b c) (hD : 0 < 1 + dotR a b + dotR b c + dotR c a)
+    (hγ : slerpSwitch ≤ angleR b c) (hbc : 0 < dotR b c) {t : ℝ} (ht0 : 0 ≤ t) (ht1 : t ≤ 1) (S θ : ℝ) :
+    gcPoint b (edgeDirR b c) (edgeArcR a b (edgeDirR b c) (azimuthR a b (slerpR b c t))) = slerpR b c t ∧
+    Real.sin (angleR a (slerpR b c t) / 2) ≠ 0 ∧ 0 < triAreaR a b c ∧
+    ∃ hθ βψ : ℝ,
+      HasDerivAt (fun x => Real.sin (x / 2) / Real.sin (angleR a (slerpR b c t) / 2)) hθ θ ∧
+      HasDerivAt (fun x => triAreaR a b (gcPoint b (edgeDirR b c) (edgeArcR a b (edgeDirR b c) x)) / triAreaR a b c) βψ
+        (azimuthR a b (slerpR b c t)) ∧
+      (Real.sin (θ / 2) / Real.sin (angleR a (slerpR b c t) / 2)) * S * (hθ * βψ) =
+        S / (2 * triAreaR a b c) * Real.sin θ :=
+  equal_area_pointwise_edge ha hb hc hV hD hγ hbc ht0 ht1 S θ
 
-/-- twice the signed area of the planar triangle `P Q R` (shoelace formula) -/
-def shoelace (px py qx qy rx ry : K) : K := (qx - px) * (ry - py) - (rx - px) * (qy - py)
-
-/-- 3×3 determinant, rows `(a1 a2 a3) (b1 b2 b3) (c1 c2 c3)` -/
-def det3 (a1 a2 a3 b1 b2 b3 c1 c2 c3 : K) : K :=
-  a1 * (b2 * c3 - b3 * c2) - a2 * (b1 * c3 - b3 * c1) + a3 * (b1 * c2 - b2 * c1)
-
-/-- the shoelace expression is the 3×3 determinant with a column of ones -/
-theorem shoelace_eq_det3 (px py qx qy rx ry : K) :
-    shoelace px py qx qy rx ry = det3 px py 1 qx qy 1 rx ry 1 := by
-  simp only [shoelace, det3]; ring
-
-/-- the denominator of `faceToBarycentric` is the same quantity -/
-theorem triDet_eq_shoelace (ax ay bx «by» cx cy : K) :
-    triDetG ax ay bx «by» cx cy = shoelace ax ay bx «by» cx cy := by
-  simp only [triDetG, shoelace]; ring
-
-/-- T1 (general form, no hypothesis on the weights): multiplicativity of the determinant.  `P_i` is the
-image of the weight triple `(u_i, v_i, w_i)`, `s_i = u_i + v_i + w_i`. -/
-theorem affine_area_det (u1 v1 w1 u2 v2 w2 u3 v3 w3 ax ay bx «by» cx cy : K) :
-    det3 (barycentricToFaceG u1 v1 w1 ax ay bx «by» cx cy).1 (barycentricToFaceG u1 v1 w1 ax ay bx «by» cx cy).2
-         (u1 + v1 + w1)
-         (barycentricToFaceG u2 v2 w2 ax ay bx «by» cx cy).1 (barycentricToFaceG u2 v2 w2 ax ay bx «by» cx cy).2
-         (u2 + v2 + w2)
-         (barycentricToFaceG u3 v3 w3 ax ay bx «by» cx cy).1 (barycentricToFaceG u3 v3 w3 ax ay bx «by» cx cy).2
-         (u3 + v3 + w3)
-      = det3 u1 v1 w1 u2 v2 w2 u3 v3 w3 * shoelace ax ay bx «by» cx cy := by
-  simp only [barycentricToFaceG, det3, shoelace]; ring
-
-/-- T1. For weights that sum to 1 (which `polyhedralForward` intends and `faceToBarycentric` guarantees):
-the signed area of the image triangle is the determinant of the weight triples times the signed area of the
-face triangle — the same factor for every triangle, so `barycentricToFace` preserves area ratios. -/
-theorem affine_area (u1 v1 w1 u2 v2 w2 u3 v3 w3 ax ay bx «by» cx cy : K)
-    (h1 : u1 + v1 + w1 = 1) (h2 : u2 + v2 + w2 = 1) (h3 : u3 + v3 + w3 = 1) :
-    shoelace (barycentricToFaceG u1 v1 w1 ax ay bx «by» cx cy).1 (barycentricToFaceG u1 v1 w1 ax ay bx «by» cx cy).2
-             (barycentricToFaceG u2 v2 w2 ax ay bx «by» cx cy).1 (barycentricToFaceG u2 v2 w2 ax ay bx «by» cx cy).2
-             (barycentricToFaceG u3 v3 w3 ax ay bx «by» cx cy).1 (barycentricToFaceG u3 v3 w3 ax ay bx «by» cx cy).2
-      = det3 u1 v1 w1 u2 v2 w2 u3 v3 w3 * shoelace ax ay bx «by» cx cy := by
-  rw [shoelace_eq_det3, ← affine_area_det, h1, h2, h3]
-
-/-- … and for such weights the determinant of the triples is the shoelace area of their `(u,v)` parts: the
-map is the affine map that sends the standard triangle to the face triangle. -/
-theorem det3_of_sum_one (u1 v1 w1 u2 v2 w2 u3 v3 w3 : K)
-    (h1 : u1 + v1 + w1 = 1) (h2 : u2 + v2 + w2 = 1) (h3 : u3 + v3 + w3 = 1) :
-    det3 u1 v1 w1 u2 v2 w2 u3 v3 w3 = shoelace u1 v1 u2 v2 u3 v3 := by
-  have e1 : w1 = 1 - u1 - v1 := by linear_combination h1
-  have e2 : w2 = 1 - u2 - v2 := by linear_combination h2
-  have e3 : w3 = 1 - u3 - v3 := by linear_combination h3
-  subst e1 e2 e3
-  simp only [det3, shoelace]; ring
-
-/-! ## T2: the planar `h²` law -/
-
-/-- The weights produced by `polyhedralForward` have the form `(1 − h, h·β, h·(1 − β))`.  The planar wedge
-with apex `A` between the rays of parameters `β₁`, `β₂`, cut at height `h`, has area `h²·(β₁ − β₂)` times the
-triangle: quadratic in `h`, linear in `β`. -/
-theorem planar_wedge_area (h β₁ β₂ ax ay bx «by» cx cy : K) :
-    shoelace ax ay
-      (barycentricToFaceG (1 - h) (h * β₁) (h * (1 - β₁)) ax ay bx «by» cx cy).1
-      (barycentricToFaceG (1 - h) (h * β₁) (h * (1 - β₁)) ax ay bx «by» cx cy).2
-      (barycentricToFaceG (1 - h) (h * β₂) (h * (1 - β₂)) ax ay bx «by» cx cy).1
-      (barycentricToFaceG (1 - h) (h * β₂) (h * (1 - β₂)) ax ay bx «by» cx cy).2
-      = h ^ 2 * (β₁ - β₂) * shoelace ax ay bx «by» cx cy := by
-  simp only [barycentricToFaceG, shoelace]; ring
-
-end ring
-
-/-! ## T2 continued: the spherical `h²` law and the Jacobian in polar coordinates -/
-
-private theorem one_sub_cos (t : ℝ) : 1 - Real.cos t = 2 * Real.sin (t / 2) ^ 2 := by
-  have h1 := Real.cos_two_mul (t / 2)
-  have h2 := Real.sin_sq_add_cos_sq (t / 2)
-  rw [show 2 * (t / 2) = t by ring] at h1
-  linear_combination (-1 : ℝ) * h1 - 2 * h2
-
-/-- For unit vectors `vector_difference(a, v) = sin(θ/2)` with `θ` the angle between them, so the code's
-`h = sin(θ_v/2) / sin(θ_p/2)`.  Its square is the ratio of the spherical cap heights `1 − cos θ`, i.e. the
-fraction of the area of a thin spherical wedge with apex `a` that lies within distance `θ_v` of `a`. -/
-theorem cap_fraction (θv θp : ℝ) (hp : Real.sin (θp / 2) ≠ 0) :
-    (Real.sin (θv / 2) / Real.sin (θp / 2)) ^ 2 = (1 - Real.cos θv) / (1 - Real.cos θp) := by
-  rw [one_sub_cos, one_sub_cos, div_pow]
-  field_simp
-
-/-- The Jacobian identity in polar coordinates `(θ, α)` about the apex (`θ` = arc distance from `a`, `α` =
-azimuth).  Write `T` for the arc distance from `a` to the opposite side in direction `α`, `W α` for the area
-of the part of the triangle swept up to azimuth `α`, `Ω` for the whole area, `S` for twice the planar triangle
-area.  The code uses `h = sin(θ/2)/sin(T/2)` and `β = W(α)/Ω`; since `β` does not depend on `θ` the Jacobian
-determinant of `(θ, α) ↦ (h, β)` is `∂h/∂θ · β′(α)`, and the planar area element in `(h, β)` is `h·S`
-(`planar_wedge_area`).  **Hypothesis** (standard, not proved here): the sweep formula `W′(α) = 1 − cos T`.
-Conclusion: planar area element `= S/(2Ω) · sin θ dθ dα`, a constant multiple of the sphere's. -/
-theorem equal_area_jacobian_polar (W : ℝ → ℝ) (T Ω S θ α : ℝ)
-    (hsweep : HasDerivAt W (1 - Real.cos T) α) (hT : Real.sin (T / 2) ≠ 0) (hΩ : Ω ≠ 0) :
-    ∃ hθ βα : ℝ,
-      HasDerivAt (fun t => Real.sin (t / 2) / Real.sin (T / 2)) hθ θ ∧
-      HasDerivAt (fun a => W a / Ω) βα α ∧
-      (Real.sin (θ / 2) / Real.sin (T / 2)) * S * (hθ * βα) = S / (2 * Ω) * Real.sin θ := by
-  refine ⟨Real.cos (θ / 2) * (1 / 2) / Real.sin (T / 2), (1 - Real.cos T) / Ω, ?_, hsweep.div_const Ω, ?_⟩
-  · have h1 : HasDerivAt (fun t : ℝ => t / 2) (1 / 2) θ := by
-      simpa using (hasDerivAt_id θ).div_const 2
-    exact ((Real.hasDerivAt_sin (θ / 2)).comp θ h1).div_const _
-  · have hs : Real.sin θ = 2 * Real.sin (θ / 2) * Real.cos (θ / 2) := by
-      rw [← Real.sin_two_mul]; congr 1; ring
-    rw [one_sub_cos, hs]
-    field_simp
-
-/-! ## T3: the constant -/
-
-/-- The sphere (area `4π`) is cut into 12 faces × 10 triangles, so every spherical triangle `abc` handled by
-`polyhedralForward` has area `4π/120 = π/30`; enclosure from Mathlib's `Real.pi_gt_d20`, `Real.pi_lt_d20`
-(`3.14159265358979323846 < π < 3.14159265358979323847`). -/
-theorem sphere_area_per_triangle :
-    4 * Real.pi / (12 * 10) = Real.pi / 30 ∧
-    (0.1047197551196597746 : ℝ) < Real.pi / 30 ∧ Real.pi / 30 < (0.1047197551196597747 : ℝ) := by
-  refine ⟨by ring, ?_, ?_⟩
-  · have := Real.pi_gt_d20; linarith
-  · have := Real.pi_lt_d20; linarith
-
-/-- The planar face triangle is a right triangle with legs `d = DISTANCE_TO_EDGE` and `d·tan(π/5)`; the
-generated `d` is the `f64` nearest to `(√5 − 1)/2`: kernel-checked `d² + d − 1` is within `2^-52` of 0. -/
-theorem distance_to_edge_value :
-    ratAbs (Gen.DISTANCE_TO_EDGE.toRat ^ 2 + Gen.DISTANCE_TO_EDGE.toRat - 1) < (2 : Rat) ^ (-52 : Int) := by
-  decide +kernel
-
-/-! ## the unproved part -/
-
-/-- vectors of `ℝ³` as triples -/
-abbrev R3 := ℝ × ℝ × ℝ
-
-def dot (a b : R3) : ℝ := a.1 * b.1 + a.2.1 * b.2.1 + a.2.2 * b.2.2
-def cross (a b : R3) : R3 :=
-  (a.2.1 * b.2.2 - a.2.2 * b.2.1, a.2.2 * b.1 - a.1 * b.2.2, a.1 * b.2.1 - a.2.1 * b.1)
-noncomputable def len (a : R3) : ℝ := Real.sqrt (dot a a)
-noncomputable def normalize (a : R3) : R3 := (a.1 / len a, a.2.1 / len a, a.2.2 / len a)
-/-- `normalize (lerp a b 0.5)` -/
-noncomputable def midR (a b : R3) : R3 :=
-  normalize (a.1 + (b.1 - a.1) / 2, a.2.1 + (b.2.1 - a.2.1) / 2, a.2.2 + (b.2.2 - a.2.2) / 2)
-/-- idealised `vector_difference` (no small-angle switch): `sin` of half the angle, for unit vectors -/
-noncomputable def vecDiffR (a b : R3) : ℝ := len (cross a (midR a b))
-/-- `quadruple_product` -/
-def quadR (a b c d : R3) : R3 :=
-  (b.1 * dot a (cross c d) - a.1 * dot b (cross c d),
-   b.2.1 * dot a (cross c d) - a.2.1 * dot b (cross c d),
-   b.2.2 * dot a (cross c d) - a.2.2 * dot b (cross c d))
-/-- idealised `get_triangle_area` (no small-angle switch, no clamp) -/
-noncomputable def sphAreaR (v1 v2 v3 : R3) : ℝ :=
-  2 * Real.arcsin (dot (midR v2 v3) (cross (midR v3 v1) (midR v1 v2)))
-
-/-- the idealised real-number `polyhedralForward`: same formulas as the model with `Real.sqrt`,
-`Real.arcsin`, exact arithmetic and without the small-angle switches; the last step is the twin
-`barycentricToFaceG` -/
-noncomputable def polyhedralForwardR (a b c : R3) (ax ay bx «by» cx cy : ℝ) (v : R3) : ℝ × ℝ :=
-  let z := normalize (v.1 - a.1, v.2.1 - a.2.1, v.2.2 - a.2.2)
-  let p := normalize (quadR a z b c)
-  let h := vecDiffR a v / vecDiffR a p
-  let scaled := h / sphAreaR a b c
-  barycentricToFaceG (1 - h) (scaled * sphAreaR a p c) (scaled * sphAreaR a b p) ax ay bx «by» cx cy
-
-/-- **Not proved, not assumed anywhere.**  The equal-area property of the idealised map: for any
-differentiable parametrisation `w` of a piece of the unit sphere inside the open spherical triangle `abc`,
-the Jacobian determinant of `polyhedralForwardR ∘ w` is, up to sign, the constant
-`S/(2Ω)` (planar over spherical triangle area) times the sphere's area form `w · (∂₁w × ∂₂w)`. -/
-def equal_area_jacobian_statement : Prop :=
-  ∀ (a b c : R3) (ax ay bx «by» cx cy : ℝ) (w : ℝ × ℝ → R3) (x : ℝ × ℝ),
-    dot a a = 1 → dot b b = 1 → dot c c = 1 → 0 < dot a (cross b c) →
-    (∀ y, dot (w y) (w y) = 1) → DifferentiableAt ℝ w x →
-    0 < dot (w x) (cross a b) → 0 < dot (w x) (cross b c) → 0 < dot (w x) (cross c a) →
-    let G : ℝ × ℝ → ℝ × ℝ := fun y => polyhedralForwardR a b c ax ay bx «by» cx cy (w y)
-    let J := fderiv ℝ G x
-    let w1 : R3 := fderiv ℝ w x (1, 0)
-    let w2 : R3 := fderiv ℝ w x (0, 1)
-    DifferentiableAt ℝ G x ∧
-    |(J (1, 0)).1 * (J (0, 1)).2 - (J (0, 1)).1 * (J (1, 0)).2|
-      = |shoelace ax ay bx «by» cx cy / (2 * sphAreaR a b c)| * |dot (w x) (cross w1 w2)|
-
-/-! ## non-vacuity -/
-
-/-- T1 on the face triangle `(0,0) (4,0) (0,2)` (shoelace 8) with weight triples `(1,0,0)`,
-`(1/2,1/2,0)`, `(1/2,0,1/2)` (determinant 1/4): the image `(0,0) (2,0) (0,1)` has shoelace 2 -/
-example : shoelace (0 : ℚ) 0 2 0 0 1 = det3 (1 : ℚ) 0 0 (1 / 2) (1 / 2) 0 (1 / 2) 0 (1 / 2) * shoelace (0 : ℚ) 0 4 0 0 2 := by
-  norm_num [shoelace, det3]
-example : barycentricToFaceG (1 / 2 : ℚ) (1 / 2) 0 0 0 4 0 0 2 = (2, 0) := by norm_num [barycentricToFaceG]
-/-- `cap_fraction` at `θ_v = π/2`, `θ_p = π`: half of the hemisphere's height -/
-example : (1 - Real.cos (Real.pi / 2)) / (1 - Real.cos Real.pi) = 1 / 2 := by
-  rw [Real.cos_pi_div_two, Real.cos_pi]; norm_num
-/-- the hypotheses of `equal_area_jacobian_polar` are satisfiable: `W α = (1 − cos T)·α`, `T = π/2` -/
-example : HasDerivAt (fun a : ℝ => (1 - Real.cos (Real.pi / 2)) * a) (1 - Real.cos (Real.pi / 2)) 0 := by
-  simpa using (hasDerivAt_id (0 : ℝ)).const_mul (1 - Real.cos (Real.pi / 2))
-
-/-! ## T4: area fractions along the edge are preserved exactly -/
-
-open A5.RadialRoundTrip A5.AngularRoundTrip in
-/-- T4. `angular_area_fraction`: for a counter-clockwise spherical triangle `a b c` (area `E < π`) and every fraction
-`0 < r < 1`, the point `P = slerp(b, c, q)` that the inverse projection designates for the planar edge fraction `r`
-(`q = edgeParamR a b c (r·E)`, the code's `(2/θ)·atan2(g, f)`) lies strictly inside the edge and cuts off exactly the
-fraction `r` of the triangle's area: `area(a, b, P) = r · area(a, b, c)` - the planar sub-triangle `A B P'` with
-`P' = B + r (C - B)` has the fraction `r` of the planar area, so the two area ratios agree for every `r`. -/
-theorem angular_area_fraction {a b c : RadialRoundTrip.R3} (ha : dotR a a = 1) (hb : dotR b b = 1) (hc : dotR c c = 1)
-    (hV : 0 < tripleR a b c) (hD : 0 < 1 + dotR a b + dotR b c + dotR c a) (hγ : slerpSwitch ≤ angleR b c)
-    (r : ℝ) (hr0 : 0 < r) (hr1 : r < 1) :
-    0 < edgeParamR a b c (r * triAreaR a b c) ∧ edgeParamR a b c (r * triAreaR a b c) < 1 ∧
-      triAreaR a b (slerpR b c (edgeParamR a b c (r * triAreaR a b c))) = r * triAreaR a b c := by
-  have hE := (triAreaR_mem ha hb hc hV hD).1
-  exact angular_forward_formula ha hb hc hV hD hγ (mul_pos hr0 hE) (by nlinarith)
+/-- T7. the two-variable form: Fréchet derivative of `(θ, ψ) ↦ (h, β)`, determinant × planar density = constant × `sin θ`. -/
+theorem equal_area_two_variable {a b d : RadialRoundTrip.R3} (ha : dotR a a = 1) (hb : dotR b b = 1) (hd : dotR d d = 1)
+    (hbd : dotR b d = 0) (hT : 0 < tripleR a b d) {ψ : ℝ}
+    (hMq : 0 < Real.cos ψ * tripleR a b d + Real.sin ψ * (dotR a b * dotR a d))
+    (hD : 0 < 1 + dotR a b + dotR b (gcPoint b d (edgeArcR a b d ψ)) + dotR (gcPoint b d (edgeArcR a b d ψ)) a)
+    (S Ω θ : ℝ) (hΩ : Ω ≠ 0) :
+    ∃ F' : ℝ × ℝ →L[ℝ] ℝ × ℝ,
+      HasFDerivAt (fun z : ℝ × ℝ =>
+        (Real.sin (z.1 / 2) / Real.sin (angleR a (gcPoint b d (edgeArcR a b d z.2)) / 2),
+          triAreaR a b (gcPoint b d (edgeArcR a b d z.2)) / Ω)) F' (θ, ψ) ∧ (F' (1, 0)).2 = 0 ∧
+      (Real.sin (θ / 2) / Real.sin (angleR a (gcPoint b d (edgeArcR a b d ψ)) / 2)) * S *
+          ((F' (1, 0)).1 * (F' (0, 1)).2 - (F' (0, 1)).1 * (F' (1, 0)).2)
+        = S / (2 * Ω) * Real.sin θ :=
+  equal_area_pointwise_fderiv ha hb hd hbd hT hMq hD S Ω θ hΩ
 
 end A5.C16
